@@ -244,6 +244,35 @@ def run(ctx):
     from lib.peg import Grammar as G_
     P_.L1_tokens(_Only(ctx, lambda k_: any(k_.endswith("[%s]" % o) for o in CMP_OPS) or k_ == "binary-token-tables"), "C12.R10", core, G_(ctx.grammar))
 
+    # ---------------- R12 `1.==x` is `1 .== x`
+    ctx.rule("C12.R12", "a dot-prefixed comparison keeps its dot when it follows a number: inside a number literal a `.` is always followed by a digit, so `1.==[1]` is the non-broadcasting `1 .== [1]` and not `1. == [1]`", floor=1)
+    from lib.peg import Grammar as G12_
+    c10_.dot_needs_digit(ctx, "C12.R12", G12_(ctx.grammar))
+
+    # ---------------- R11 an operator is never evaluated as another one
+    ctx.rule("C12.R11", "the operator that is evaluated is the operator that was written: where the evaluator re-labels one comparison / equality operator as another (`.<=` handled by the arm of `<=`), the two have the same table - `.>=` sent to `>` answers false for equal operands", floor=1)
+    SAME = {"DotEqual": "Equal", "DotNotEqual": "NotEqual", "DotLess": "Less", "DotLessEq": "LessEq", "DotGreater": "Greater", "DotGreaterEq": "GreaterEq"}
+    n_rel = 0
+    hbo = core.hir_fn("blots_core::expressions::evaluate_binary_op_ast")
+    for m_ in H.walk(hbo["body"]):
+        if H.kind(m_) != "Match" or not (m_["scrut"].get("ty") or "").lstrip("&").endswith("ast::BinaryOp"):
+            continue
+        for a_ in m_["arms"]:
+            b_ = H.strip(a_["body"])
+            while H.kind(b_) == "Block" and not b_["stmts"] and b_.get("expr") is not None:
+                b_ = H.strip(b_["expr"])
+            to_ = H.last(H.path_def(b_) or "") if H.kind(b_) == "Path" and (b_.get("ty") or "").lstrip("&").endswith("ast::BinaryOp") else None
+            if not to_:
+                continue
+            for v_ in H.pat_variants(a_["pat"]):
+                frm = H.last(v_)
+                if frm == to_ or frm not in set(SAME) | set(SAME.values()):
+                    continue
+                n_rel += 1
+                same_table = SAME.get(frm) == to_ or SAME.get(to_) == frm
+                ctx.inst("C12.R11", "relabel[%s->%s]" % (frm, to_), None if same_table else False, "%s is evaluated by the arm of %s: %s" % (frm, to_, "same table (whether the two arms agree on every operand is C11's broadcasting law)" if same_table else "different tables"), H.loc(a_["body"]))
+    ctx.inst("C12.R11", "relabel#none", True if n_rel == 0 else None, "comparison operators re-labelled as other operators in the evaluator: %d" % n_rel, None)
+
     # ---------------- R8 no answer from heap identity
     from rules import c02 as c02_
     from lib import mir as M_
